@@ -205,19 +205,32 @@ class Model:
                 continue
             dv_opts = []
             if with_dv:
-                linked_follow = set()
-                for c in self.spec['constraints']:
-                    if all(x in self.nodes for x in c['choices']):
-                        linked_follow.update(sorted(c['choices'])[1:])
+                # linked design-variable nodes share one value: one variable per group with a present member, named
+                # after the group's representative (dv_rep)
+                rep = self.dv_rep()
+                done = set()
                 for n in self.spec['nodes']:
-                    if n['kind'] == 'dv' and 'options' in n and n['id'] in clos and n['id'] not in linked_follow:
-                        dv_opts.append([(n['id'], i) for i in range(len(n['options']))])
+                    if n['kind'] == 'dv' and 'options' in n and n['id'] in clos and rep[n['id']] not in done:
+                        done.add(rep[n['id']])
+                        dv_opts.append([(rep[n['id']], i) for i in range(len(n['options']))])
             for combo in itertools.product(*conn_opts):
                 for dcombo in itertools.product(*dv_opts):
                     out.append({'assign': assign, 'nodes': clos, 'conn': dict(combo), 'dv': dict(dcombo)})
                     if len(out) > limit:
                         raise OverflowError('too many architectures')
         return out
+
+    def dv_rep(self):
+        """design-variable node -> representative of its LINKED group (itself if not linked)"""
+        rep = {n['id']: n['id'] for n in self.spec['nodes'] if n['kind'] == 'dv'}
+        for c in self.spec['constraints']:
+            if all(x in rep for x in c['choices']):
+                r = min(rep[x] for x in c['choices'])
+                old = {rep[x] for x in c['choices']}
+                for k in rep:
+                    if rep[k] in old:
+                        rep[k] = r
+        return rep
 
     def arch_edges(self, assign, clos, conn=None):
         """edge multiset {(u, v, 'D'|'C'): count} of an architecture"""
